@@ -341,7 +341,7 @@ pub fn write_outcome<S: Src>(s: &mut S, g: usize) {
 
 /// Two byte writes at SYMBOLIC addresses followed by a probe read at a third symbolic address, on the real
 /// `Bus::read`/`Bus::write` and the real RAM / vector / I/O arrays.  `dram_window` = 0: no access falls
-/// into DRAM (its array is replaced by one byte, see `stubs::bus_new_dram`); otherwise every DRAM access is
+/// into DRAM (its array is replaced by one byte); otherwise every DRAM access is
 /// assumed to lie in the first `dram_window` bytes of DRAM.  Decides "no aliasing / persistence" for every
 /// pair of write addresses and every probe address of those regions, interior addresses included.
 pub fn sym_write_probe<S: Src>(s: &mut S, dram_window: u32) {
@@ -355,6 +355,10 @@ pub fn sym_write_probe<S: Src>(s: &mut S, dram_window: u32) {
     s.assume(dram_ok(a1) && dram_ok(a2) && dram_ok(probe));
     s.assume(!mem::side_effect_reg(a1) && !mem::side_effect_reg(a2));
     let mut cpu = Cpu::new();
+    // the 2 MiB DRAM array is replaced by a short one: a symbolic-index store into the real array is a
+    // byte-update over two million elements (out of memory); DRAM accesses outside the window are excluded above
+    cpu.bus.dram = if dram_window > 0 { vec![0u8; 4096].into_boxed_slice() } else { vec![0u8; 1].into_boxed_slice() };
+    s.assume(dram_window <= 4096);
     let r1 = cpu.bus.write(a1, v1);
     let r2 = cpu.bus.write(a2, v2);
     let r = cpu.bus.read(probe);
